@@ -328,15 +328,9 @@ func (m *model) Layout(W float64) (lines []Line, guard string) {
 			if end > pos && x+ns > avail+eps {
 				// finding D2: a collapsible space that ends its text node is dropped when the text
 				// before it fits and the text with it does not, even if content follows on the line
-				tsp, endsNode, inBox := m.trailingSpace(pos, end)
+				tsp, endsNode, _ := m.trailingSpace(pos, end)
 				if m.coll && tsp > 0 && endsNode && x-tsp+ns <= avail+eps {
 					guards["D2"] = true
-				}
-				_ = inBox
-				// finding D12: the preserved-line-break flag of a child that is then moved to the
-				// next line stays set, and the line is not justified
-				if m.p.Align == "justify" && m.forcedAhead(end) {
-					guards["D12"] = true
 				}
 				// finding D16: when the rest of an inline box fits without its end spacing but not
 				// with it, its last child is split again against (available - end spacing) and
@@ -360,11 +354,6 @@ func (m *model) Layout(W float64) (lines []Line, guard string) {
 				forced = true
 				break
 			}
-		}
-		// finding D6: a trailing space held by an inline box is not allowed to hang: when the
-		// line fits only without it, the break is taken at an earlier opportunity
-		if tsp, _, inBox := m.trailingSpace(pos, end); tsp > 0 && inBox && x > avail+eps && x-tsp <= avail+eps {
-			guards["D6"] = true
 		}
 		// finding D10: the last line is justified when a collapsible space follows it and the line
 		// fits only without that space
@@ -390,47 +379,12 @@ func (m *model) Layout(W float64) (lines []Line, guard string) {
 	if len(lines) > 0 {
 		lines[len(lines)-1].Last = true
 	}
-	for _, g := range []string{"D2", "D6", "D10", "D12", "D16"} {
+	for _, g := range []string{"D2", "D10", "D16"} {
 		if guards[g] && !lifted(g) {
 			return lines, g
 		}
 	}
 	return lines, ""
-}
-
-// forcedAhead reports the D12 configuration: the content rejected at a soft break before items[p] is
-// tried on the full line first, child after child, until a text needs a second line; a forced break
-// met during that attempt leaves its flag on the line.  The walk follows the units after p while each
-// ends its text node (or is an atomic inline).
-func (m *model) forcedAhead(p int) bool {
-	for n := 0; n < 8 && p < len(m.items); n++ {
-		q, f := m.unitEnd(p)
-		if f {
-			return true
-		}
-		// last character of the unit
-		last := -1
-		for i := q - 1; i >= p; i-- {
-			if m.items[i].k == 'c' {
-				last = i
-				break
-			}
-			if m.items[i].k == 'a' {
-				break
-			}
-		}
-		if last >= 0 {
-			j := m.nextContent(last + 1)
-			if j < len(m.items) && m.items[j].k == 'c' && m.items[j].tn == m.items[last].tn {
-				return false // the text continues: it is split and the attempt ends
-			}
-			if j < len(m.items) && m.items[j].k == 'n' && m.items[j].tn == m.items[last].tn {
-				return true
-			}
-		}
-		p = q
-	}
-	return false
 }
 
 // endSpacingResplit reports the D16 configuration at a soft break before items[end]: an end edge
